@@ -469,12 +469,13 @@ let () =
     (fun ~seed ~n emit ->
       let r = mk_rng seed in
       let case (c : cfg) cie fde =
-        let (sect, f) = build_one c cie fde in
-        let line = String.concat " " ["c06.insn"; b01 c.aarch64; b01 c.be; string_of_int (c.asize land 255); hex_of_ints sect] in
-        both emit (fun () -> line) (fun dbg ->
-          if not (valid_asize f.f_asize) then "err UnsupportedAddressSize" else
-          let d = f_dparams f in
-          pr_items (decode dbg d f.f_cie_off f.f_cie) ^ " ; " ^ pr_items (decode dbg d f.f_fde_off f.f_fde)) in
+        sharded emit (fun () ->
+          let (sect, f) = build_one c cie fde in
+          let line = String.concat " " ["c06.insn"; b01 c.aarch64; b01 c.be; string_of_int (c.asize land 255); hex_of_ints sect] in
+          (line, fun dbg ->
+            if not (valid_asize f.f_asize) then "err UnsupportedAddressSize" else
+            let d = f_dparams f in
+            pr_items (decode dbg d f.f_cie_off f.f_cie) ^ " ; " ^ pr_items (decode dbg d f.f_fde_off f.f_fde))) in
       List.iter (fun aarch64 -> List.iter (fun asize -> List.iter (fun be ->
         let c = { base_cfg with aarch64; asize; be } in
         for op = 0 to 255 do
@@ -507,27 +508,32 @@ let () =
         start_stream r ~in_cie:false ~clean;
         let fde = rand_wires r c loc (rand_int r 12) in
         let storage = if clean then pick r [| 0; 3; 4; 5; 2 |] else rand_int r 6 in
-        let (sect, f) = build_one c (enc_wires c cie) (enc_wires c fde) in
-        let caps = caps_of_storage storage in
-        let addrs =
+        let built = lazy (
+          let (sect, f) = build_one c (enc_wires c cie) (enc_wires c fde) in
+          let caps = caps_of_storage storage in
           let rows = match fresh_ctx caps with Some cx -> fst (fst (fde_rows true caps f cx)) | None -> [] in
           let bs = List.concat_map (fun (rw : CfiRun.row) -> [z_of_n rw.r_start; z_of_n rw.r_end]) rows in
-          let bs = bs @ [c.init; Z.add c.init c.range; rand_z64 r] in
-          List.concat_map (fun a -> [Z.pred a; a; Z.succ a]) bs
-          |> List.filter (fun a -> Z.sign a >= 0 && Z.numbits a <= 64) |> List.sort_uniq Z.compare in
-        let addrs = if List.length addrs > 8 then List.filteri (fun i _ -> i mod (1 + List.length addrs / 8) = 0) addrs else addrs in
-        List.iter (fun a ->
-          let line = String.concat " " ["c06.at"; string_of_int storage; b01 c.aarch64; b01 c.be; string_of_int c.asize;
-                                        hex_of_ints sect; Z.to_string a] in
-          both emit (fun () -> line) (fun dbg ->
-            match fresh_ctx caps with
-            | None -> "panic"
-            | Some cx ->
-              (match fst (unwind_info_for_address dbg caps f cx (n_of_z a)) with
-               | Res.Ok rw -> "ok " ^ pr_row rw
-               | Res.Err e -> "err " ^ Errnames.name e
-               | Res.Panic -> "panic"
-               | Res.OutOfFuel -> "outoffuel"))) addrs
+          let bs = bs @ [c.init; Z.add c.init c.range] in
+          let addrs = List.concat_map (fun a -> [Z.pred a; a; Z.succ a]) bs
+            |> List.filter (fun a -> Z.sign a >= 0 && Z.numbits a <= 64) |> List.sort_uniq Z.compare |> Array.of_list in
+          (hex_of_ints sect, f, caps, addrs)) in
+        let rnd = Array.init 6 (fun _ -> (rand_int r 1000, rand_z64 r)) in
+        (* six probe addresses per FDE: five spread over the row boundaries -1/0/+1, one random *)
+        Array.iteri (fun j (k, rz) ->
+          sharded emit (fun () ->
+            let (secthex, f, caps, addrs) = Lazy.force built in
+            let a = if j = 5 || Array.length addrs = 0 then rz else addrs.(k mod Array.length addrs) in
+            let line = String.concat " " ["c06.at"; string_of_int storage; b01 c.aarch64; b01 c.be; string_of_int c.asize;
+                                          secthex; Z.to_string a] in
+            (line, fun dbg ->
+              match fresh_ctx caps with
+              | None -> "panic"
+              | Some cx ->
+                (match fst (unwind_info_for_address dbg caps f cx (n_of_z a)) with
+                 | Res.Ok rw -> "ok " ^ pr_row rw
+                 | Res.Err e -> "err " ^ Errnames.name e
+                 | Res.Panic -> "panic"
+                 | Res.OutOfFuel -> "outoffuel")))) rnd
       done)
 
 let init () = ()
